@@ -191,7 +191,10 @@ def move_staticmethod_static_scope(source: str, preserve: Collection[str]) -> st
     )}
 
     for node in core.walk(root, ast.Attribute):
-        if (
+        if not isinstance(node.ctx, ast.Load):
+            # An attribute that is assigned or deleted somewhere is not always the function
+            attributes_to_preserve.add(node.attr)
+        elif (
             core.match_template(node.value, ast.Call(func=ast.Name, args=[], keywords=[]))
             and (node.value.func.id, node.attr) in class_function_names
             and node.value.func.id not in classes_with_constructor
